@@ -331,6 +331,11 @@ def gen_ops_factory(meta, ctx):
         if kind[0] == 'dur':
             for v in DUR_FIXED:
                 ops.append(ctx.op(top, rng.choice('DP'), 'p', [f'{key}={v}']))
+        if kind[0] == 'vec':
+            # required classes of the vec kind must not depend on the seed: one- and multi-element vectors
+            for fl in 'DP':
+                for v in ('2.5', '1,2', '1.5,-2,3e0'):
+                    ops.append(ctx.op(top, fl, 'p', [f'{key}={v}']))
         bad = malformed_values(rng, meta, kind)
         for v in bad:
             ops.append(ctx.op(top, rng.choice('DP'), 'p', [f'{key}={v}']))
